@@ -13,6 +13,11 @@ Hypotheses that do appear are explicit:
   BlocksOnCylindrical/Generic TOF data, see `C04_explicit_branch_needs_reflexive_rel_fails`);
 * `StepsDisjoint` — the related-viewgram sets processed for a subset are disjoint (property C06).
 Each is shown satisfiable by a concrete instance in the `example`s.
+
+The last clause of the property ("the on-the-fly ray-tracing forward projector gives the same data as forward projection
+through the ray-tracing matrix") is about `ForwardProjectorByBinUsingRayTracing`, which is not modelled: it is evaluated on
+the implementation by the oracle of `harness/c04_projectors.cxx` only (two known candidates found there: the half-plane term
+dropped at tangential position 0 in `forward_project_all_symmetries_2D`, and `+=` instead of overwriting the viewgrams).
 -/
 import StirVerif.C04.ProofsSubset
 
@@ -126,6 +131,18 @@ theorem C04_additive_over_pieces_fwd (x d : Array K) (pieces : List (List Bin)) 
     (pieces.foldl (fun d p => fwdBins rows ig idx x p d) d).getD j 0 = (fwdBins rows ig idx x whole d).getD j 0 := by
   rw [fwdPieces_eq]
   exact getD_fwdBins_perm rows ig idx x d hp (hinj.perm hp) (fun b hb => hsz b (hp.mem_iff.mp hb)) j
+
+/-- … "for every subset": if the bins processed for the `n` subsets together are exactly the bins processed for the whole
+    data (each once — the bin-level form of C06's partition theorem), the back projections of the subsets add up to the back
+    projection of the whole data, at every voxel. -/
+theorem C04_additive_over_subsets_bck (cache : Bool) (y : Array K) (n : Nat)
+    (hp : ((List.range n).map fun (i : Nat) => (subsetSteps G S i n).flatMap (stepP G S cache)).flatten.Perm
+      ((subsetSteps G S 0 1).flatMap (stepP G S cache))) (m v : Nat) (hv : v < m) :
+    ((List.range n).map fun (i : Nat) => (bckSubset rows ig idx G S cache y i n (zeroImg m)).getD v 0).sum
+      = (bckSubset rows ig idx G S cache y 0 1 (zeroImg m)).getD v 0 := by
+  have := C04_additive_over_pieces_bck rows ig idx y _ _ hp m v hv
+  simp only [bckSubset_eq]
+  simpa [List.map_map, Function.comp_def] using this
 
 /-! ## frame of the forward projection -/
 
@@ -292,6 +309,10 @@ example : InjOn exIdx2 (stepBins (stepZ exG exS) (stepP exG exS true) (subsetSte
     ∧ StepsDisjoint (stepZ exG exS) (stepP exG exS true) (subsetSteps exG exS 0 1)
     ∧ subsetSteps exG exS 0 1 = [(0, 0, 0), (1, 0, 0)] := by
   unfold InjOn StepsDisjoint; decide
+
+/-- the hypothesis of `C04_additive_over_subsets_bck` holds for that data set and 2 subsets -/
+example : ((List.range 2).map fun (i : Nat) => (subsetSteps exG exS i 2).flatMap (stepP exG exS false)).flatten.Perm
+    ((subsetSteps exG exS 0 1).flatMap (stepP exG exS false)) := by decide
 
 /-- frame: the places of views 0 and 2 are not touched when subset 1 of 2 is projected -/
 example : (5 : Nat) ∉ touched exIdx2 (stepZ exG exS) (stepP exG exS true) (subsetSteps exG exS 1 2)
